@@ -4,6 +4,7 @@ import ParryModel.C03.Oracle
 import ParryModel.C03.Driver
 import ParryModel.C02.Exact
 import ParryModel.C02.Epa2
+import ParryModel.C02.Epa3
 /-!
 C02 protocol handlers (closed forms).  The closed-form `details::` functions and their exact world-frame judges
 (`judgeContact` = contact validity: unit normals, `normal2 = -normal1` in world space, `dist = (p2 - p1)·n1`,
@@ -257,7 +258,11 @@ def epa2Oracle (A : Epa2Args) (o : List String) : String :=
   let I : Iso2 Rat := ⟨1, 0, ⟨0, 0⟩⟩
   let (a1, b1, a2, b2) := (q A.a1, q A.b1, q A.a2, q A.b2)
   let sh (k : Nat) (a b : Float) : XShape2 := .prim (if k = 0 then .cuboid ⟨a, b⟩ else .ball a)
-  let pair := s!"{if A.k1 = 0 then "cuboid" else "ball"}/{if A.k2 = 0 then "cuboid" else "ball"}"
+  -- a ball whose centre is exactly a vertex of the box: the round corner of the configuration-space obstacle is an arc centred at the origin
+  let onCorner : Bool :=
+    if A.k1 != 0 && A.k2 = 0 then (let l := M.invAct ⟨0, 0⟩; rabs l.x == a2 && rabs l.y == b2)
+    else if A.k1 = 0 && A.k2 != 0 then (rabs M.t.x == a1 && rabs M.t.y == b1) else false
+  let pair := s!"{if A.k1 = 0 then "cuboid" else "ball"}/{if A.k2 = 0 then "cuboid" else "ball"}{if A.k1 != 0 && A.k2 != 0 && vmag2 M.t == 0 then "[concentric]" else ""}{if onCorner then "[round-cores-touching]" else ""}"
   let scale : Rat := 1 + a1 + b1 + a2 + b2 + vmag2 M.t
   let pts := A.pts.map fun (o1, o2) => (q2 o1).sub (q2 o2)
   -- the contract of EPA: the start simplex consists of points of the two shapes and contains the origin
@@ -310,6 +315,93 @@ def fEpa2 : Epa2Result Float → String
   | .fuel => "fuel"
   | .none => "none"
   | .some p1 p2 n _ => s!"{fv2 p1} {fv2 p2} {fv2 n}"
+
+
+/-! ## `epa3` — the 3-D EPA run on the start simplex of the library's own GJK -/
+
+structure Epa3Args where
+  k1 : Nat
+  h1 : V3 Float
+  k2 : Nat
+  h2 : V3 Float
+  pos12 : Iso3 Float
+  pts : List (V3 Float × V3 Float)
+
+def pEpa3 : P Epa3Args := do
+  let k1 ← pnat; let h1 ← pv3; let k2 ← pnat; let h2 ← pv3; let m ← piso3; let n ← pnat
+  let rec go : Nat → P (List (V3 Float × V3 Float))
+    | 0 => pure []
+    | k + 1 => do let o1 ← pv3; let o2 ← pv3; let r ← go k; pure ((o1, o2) :: r)
+  let pts ← go n
+  pure ⟨k1, h1, k2, h2, m, pts⟩
+
+def epa3Supp1 {K} [Num K] (k : Nat) (h : V3 K) (d : V3 K) : V3 K :=
+  if k = 0 then cuboidLocalSupport h d else V3.zero.add ((V3.normalize d).smul h.x)
+def epa3Supp2 {K} [Num K] (k : Nat) (h : V3 K) (m : Iso3 K) (d : V3 K) : V3 K :=
+  if k = 0 then (cuboidSupportMap h).support m d else (ballSupportMap h.x).support m d
+
+/-- exact support value of the posed shape along `n` -/
+def epa3H (k : Nat) (h : V3 Rat) (m : Iso3 Rat) (n : V3 Rat) : Rat :=
+  if k = 0 then m.t.dot n + h.x * rabs ((m.rot ⟨1, 0, 0⟩).dot n) + h.y * rabs ((m.rot ⟨0, 1, 0⟩).dot n) + h.z * rabs ((m.rot ⟨0, 0, 1⟩).dot n)
+  else m.t.dot n + h.x * rsqrt n.normSq
+def epa3Outside (k : Nat) (h : V3 Rat) (m : Iso3 Rat) (p : V3 Rat) : Rat :=
+  let l := m.invAct p
+  if k = 0 then rmax 0 (rmax (rabs l.x - h.x) (rmax (rabs l.y - h.y) (rabs l.z - h.z))) else rmax 0 (rsqrt l.normSq - h.x)
+
+def epa3Oracle (A : Epa3Args) (o : List String) : String :=
+  let M := qiso3 A.pos12
+  if !unitQ M then "skip non-unit-rotation" else
+  let I : Iso3 Rat := ⟨0, 0, 0, 1, ⟨0, 0, 0⟩⟩
+  let (h1, h2) := (q3 A.h1, q3 A.h2)
+  let sh (k : Nat) (h : V3 Float) : XShape3 := .prim (if k = 0 then .cuboid h else .ball h.x)
+  -- a ball whose centre lies exactly on an edge / vertex of the box (a rounded edge of the obstacle is centred at the origin)
+  let onB (l h : V3 Rat) : Bool :=
+    rabs l.x ≤ h.x && rabs l.y ≤ h.y && rabs l.z ≤ h.z &&
+    ((if rabs l.x == h.x then 1 else 0) + (if rabs l.y == h.y then 1 else 0) + (if rabs l.z == h.z then 1 else 0) : Nat) ≥ 2
+  let onEdge : Bool :=
+    if A.k1 != 0 && A.k2 = 0 then onB (M.invAct ⟨0, 0, 0⟩) h2
+    else if A.k1 = 0 && A.k2 != 0 then onB M.t h1 else false
+  let pair := s!"{if A.k1 = 0 then "cuboid" else "ball"}/{if A.k2 = 0 then "cuboid" else "ball"}{if A.k1 != 0 && A.k2 != 0 && vmag M.t == 0 then "[concentric]" else ""}{if onEdge then "[round-cores-touching]" else ""}"
+  let scale : Rat := 1 + vmag h1 + vmag h2 + vmag M.t
+  let inShapes := A.pts.all fun (o1, o2) =>
+    epa3Outside A.k1 h1 I (q3 o1) ≤ (1 / 1000000000) * scale && epa3Outside A.k2 h2 M (q3 o2) ≤ (1 / 1000000000) * scale
+  if !inShapes then "skip simplex-not-from-the-shapes" else
+  match geom3 (sh A.k1 A.h1) I, geom3 (sh A.k2 A.h2) M with
+  | some G1, some G2 =>
+    match sepG3 G1 G2 with
+    | none => "skip no-exact-separation"
+    | some sep =>
+      let pen := -sep
+      let dim := A.pts.length - 1
+      match o with
+      | ["none"] =>
+        if pen > (1 / 1000000) * scale then s!"fail none-for-overlapping-shapes pair={pair} dim={dim} exact-depth={(toF pen)}"
+        else "skip touching"
+      | ["degenerate-simplex"] => "skip degenerate-simplex"
+      | _ =>
+      withOut (do let p1 ← pov3; let p2 ← pov3; let n ← pov3; pure (p1, p2, n)) o fun (p1, p2, n) =>
+        let (P1, P2, N) := (q3 p1, q3 p2, q3 n)
+        if dim = 0 then (if !close N.normSq 1 1000 then s!"fail normal-not-unit pair={pair} dim=0" else "pass")
+        else if pen ≤ (1 / 1000000) * scale then "skip touching" else
+        let wt : Rat := (1 / 1000000) * scale
+        let d := (P1.sub P2).dot N
+        let H := epa3H A.k1 h1 I N + epa3H A.k2 h2 M N.neg
+        let rel : Rat := if A.k1 = 0 && A.k2 = 0 then 0 else (2 / 100)
+        if N.normSq == 0 && d == 0 then s!"fail null-contact pair={pair} dim={dim}"
+        else if !close N.normSq 1 1000 then s!"fail normal-not-unit pair={pair} n2={toF N.normSq}"
+        else if epa3Outside A.k1 h1 I P1 > wt then s!"fail witness1-not-on-its-shape pair={pair} dim={dim} off={toF (epa3Outside A.k1 h1 I P1)}"
+        else if epa3Outside A.k2 h2 M P2 > wt then s!"fail witness2-not-on-its-shape pair={pair} dim={dim} off={toF (epa3Outside A.k2 h2 M P2)}"
+        else if d > H + wt then s!"fail depth-exceeds-the-overlap-along-the-normal pair={pair} depth={toF d} overlap={toF H}"
+        else if H - d > wt + rel * pen then s!"fail witnesses-short-of-the-overlap-along-the-normal pair={pair} dim={dim} depth={toF d} overlap={toF H} exact={toF pen}"
+        else if H > pen + wt + rel * pen then s!"fail normal-is-not-a-minimising-direction pair={pair} dim={dim} overlap-along-normal={toF H} exact={toF pen}"
+        else "pass"
+  | _, _ => "skip no-exact-geometry"
+
+def fEpa3 : Epa3Result Float → String
+  | .panic => "panic"
+  | .fuel => "fuel"
+  | .none => "none"
+  | .some p1 p2 n _ => s!"{fv3 p1} {fv3 p2} {fv3 n}"
 
 
 def handlerCore (fn : String) : Option Handler :=
@@ -606,6 +698,14 @@ def handlerCore (fn : String) : Option Handler :=
                 else if rabs (D - (P2w.sub P1).dot N1) > t9 then "fail dist-is-not-(p2-p1).n1"
                 else epa2Oracle A [ff p1.x, ff p1.y, ff (A.pos12.act p2).x, ff (A.pos12.act p2).y, ff n1.x, ff n1.y]
           | _ => "fail unparsable-output")
+        | none => "skip bad-args" }
+  | "epa3" => some {
+      model := fun a => run (do
+        let A ← pEpa3
+        let pts := A.pts.map fun (o1, o2) => CSOPoint3.new o1 o2
+        pure (fEpa3 (epa3ClosestPoints (epa3Supp1 A.k1 A.h1) (epa3Supp2 A.k2 A.h2 A.pos12) 4096 pts))) a
+      oracle := fun a o => match run pEpa3 a with
+        | some A => epa3Oracle A o
         | none => "skip bad-args" }
   | _ => none
 
